@@ -403,6 +403,12 @@ def run(ctx):
         _items += [([_n], _diag, "reading the unassigned name %s is a diagnosed error" % _n),
                    (["a = 1", "b = %s + 1" % _n, "a"], "I:1", "a failing statement that reads an unassigned name leaves earlier bindings alone"),
                    (["a = 1; b = %s + 1; c = 3" % _n], _diag, "reading an unassigned name inside a statement list is a diagnosed error")]
+    # functions applied to a variable do not change what the variable reads as
+    for _f in ("median", "max", "min", "sum", "mean", "size", "prod"):
+        _items += [(["a = {3, 1, 2, 5}", "m = %s(a)" % _f, "a"], "A:[I:3;I:1;I:2;I:5]", "%s(a) leaves a unchanged" % _f),
+                   (["a = {3 m, 100 cm, 2 m}; b = a; m = %s(b); a" % _f], "A:[Q:I:3|0,1,0,0,0,0,0,0;Q:I:1|0,1,0,0,0,0,0,0;Q:I:2|0,1,0,0,0,0,0,0]", "%s(b) leaves the aliased a unchanged" % _f)]
+    _items += [(["n = 10!", "n / 8!"], "I:90", "a lazy value assigned in one input and divided in the next"),
+               (["n = 5!", "n", "n * 2"], "I:240", "a lazy value displayed and then multiplied")]
     C.expect_sessions(ctx["report"], ctx["rundir"], "C14", _items)
     rep, tier, seed = ctx["report"], ctx["tier"], ctx["seed"]
     rng = random.Random(seed * 7877 + 14)
